@@ -223,25 +223,33 @@ def check_writer_roundtrip(ctx, index):
     if index % 10 == 3:
         # at the limits of the workbook format: what cannot be stored must be refused by the writer, not cut off
         limit_case = rng.choice(["cell-32767", "cell-32768", "row-16384", "row-16385"])
+        position = rng.randrange(len(table))
         if limit_case.startswith("cell"):
-            table[0][0] = "x" * int(limit_case[5:])
+            table[position][rng.randrange(len(table[position]))] = "x" * int(limit_case[5:])
         else:
-            table[0] = ["c"] * int(limit_case[4:])
+            table[position] = ["c"] * int(limit_case[4:])
         case = {"table": "regenerated from the seed", "via": "XlsxRowWriter", "limit": limit_case, "index": index}
         ctx.count("writer.roundtrips-at-format-limits")
     ctx.case(case, True)
     ctx.count("writer.roundtrips")
     try:
         writer = rowio.XlsxRowWriter(path)
+        accepted = []
         try:
-            writer.write_rows(table)
-        except errors.DataError:
-            if limit_case in ("cell-32768", "row-16385"):
-                ctx.count("writer.refused-beyond-format-limits")
-                return
-            raise
+            for row in table:
+                try:
+                    writer.write_row(row)
+                    accepted.append(row)
+                except errors.DataError:
+                    # refused: nothing of this row may show up, and the rows after it are written as usual
+                    if limit_case not in ("cell-32768", "row-16385"):
+                        raise
+                    ctx.count("writer.refused-beyond-format-limits")
         finally:
             writer.close()
+        table = accepted
+        if not table:
+            return
         got = list(rowio.excel_rows(path, 1))
     except Exception as error:
         ctx.violation("C16:writer-roundtrip-failed:%s" % type(error).__name__, case, "writing with XlsxRowWriter and reading back failed", observed=error)
